@@ -19,7 +19,6 @@ import (
 	"github.com/go-git/go-git/v6/internal/verifrt"
 	"github.com/go-git/go-git/v6/plumbing"
 	"github.com/go-git/go-git/v6/plumbing/object"
-	"github.com/go-git/go-git/v6/plumbing/protocol/packp"
 	"github.com/go-git/go-git/v6/plumbing/storer"
 	"github.com/go-git/go-git/v6/storage"
 	"github.com/go-git/go-git/v6/storage/memory"
@@ -215,148 +214,3 @@ func verifC38GitRule(dst plumbing.ReferenceName, old, nw plumbing.Hash, oldLocal
 	return false, verifrt.Or(force, !reject)
 }
 
-// ------------------------------------------------------------ harnesses ----
-
-// rules: one non-wildcard refspec [+]src:dst against one remote reference.
-//
-//	DAG       every DAG of N commits, <= MP ordered parents (Range)
-//	src:dst   0 heads/a:heads/a  1 heads/a:heads/b  2 tags/t:tags/t
-//	          3 <commit id>:heads/a  4 <commit id>:tags/t
-//	local     src at commit lv (0..N-1)
-//	remote    dst absent or at commit rv (0..N; N = a commit the local store lacks)
-//	force     "+" prefix or not
-//	LEASE=1:  ForceWithLease nil / {""} / {dst} / {another ref}, Hash zero or
-//	          20 symbolic bytes; remote-tracking refs origin/a and origin/b
-//	          each absent / commit 0 / commit 1
-func VerifHarness_C38_rules() {
-	n := verifrt.Param("N")
-	d := object.VerifGenDAG(n, verifrt.Param("MP"), 0)
-	st := verifC38NewStore(d)
-	r := verifC38Remote(st)
-
-	kind := verifrt.Range(0, verifrt.Param("KINDS")-1)
-	lv := verifrt.Range(0, n-1)
-	rv := verifrt.Range(-1, n)
-	force := verifrt.Range(0, 1) == 1
-
-	var srcName, dst plumbing.ReferenceName
-	switch kind {
-	case 0:
-		srcName, dst = verifC38HeadA, verifC38HeadA
-	case 1:
-		srcName, dst = verifC38HeadA, verifC38HeadB
-	case 2:
-		srcName, dst = verifC38TagT, verifC38TagT
-	case 3:
-		dst = verifC38HeadA
-	case 4:
-		dst = verifC38TagT
-	}
-	src := srcName.String()
-	if srcName == "" {
-		src = verifC38ID(lv).String()
-		// some other local branch so that the reference list is not empty
-		_ = st.SetReference(plumbing.NewHashReference(verifC38HeadB, verifC38ID(0)))
-	} else {
-		_ = st.SetReference(plumbing.NewHashReference(srcName, verifC38ID(lv)))
-	}
-	_ = st.SetReference(plumbing.NewSymbolicReference(plumbing.HEAD, verifC38HeadA))
-
-	remoteRefs := memory.ReferenceStorage{}
-	if rv >= 0 {
-		_ = remoteRefs.SetReference(plumbing.NewHashReference(dst, verifC38ID(rv)))
-	}
-
-	var lease verifC38Lease
-	var fwl *ForceWithLease
-	trk := map[plumbing.ReferenceName]int{verifC38TrkA: -1, verifC38TrkB: -1}
-	if verifrt.Param("LEASE") == 1 {
-		switch verifrt.Range(0, 3) {
-		case 1:
-			lease = verifC38Lease{present: true}
-		case 2:
-			lease = verifC38Lease{present: true, refName: dst}
-		case 3:
-			other := verifC38HeadB
-			if dst == verifC38HeadB {
-				other = verifC38HeadA
-			}
-			lease = verifC38Lease{present: true, refName: other}
-		}
-		if lease.present {
-			if verifrt.Range(0, 1) == 1 {
-				lease.hash, _ = plumbing.FromBytes(verifrt.NondetBytes(20))
-			}
-			fwl = &ForceWithLease{RefName: lease.refName, Hash: lease.hash}
-			ta := verifrt.Range(-1, 1)
-			trk[verifC38TrkA] = ta
-			if kind == 1 {
-				trk[verifC38TrkB] = verifrt.Range(-1, 1)
-			}
-		}
-	}
-	for name, v := range trk {
-		if v >= 0 {
-			_ = st.SetReference(plumbing.NewHashReference(name, verifC38ID(v)))
-		}
-	}
-
-	spec := src + ":" + dst.String()
-	if force {
-		spec = "+" + spec
-	}
-	localRefs := verifC38LocalRefs(st)
-	cmds := make([]*packp.Command, 0)
-	err := r.addReferencesToUpdate([]config.RefSpec{config.RefSpec(spec)}, localRefs, remoteRefs, &cmds, false, fwl)
-
-	// oracle
-	old, nw := verifC38ID(rv), verifC38ID(lv)
-	cl := d.Closure()
-	oldLocal := rv >= 0 && rv < n
-	ff := oldLocal && cl[lv][rv]
-	tracked := plumbing.ZeroHash
-	if t := verifC38Tracking(dst); t != "" && trk[t] >= 0 {
-		tracked = verifC38ID(trk[t])
-	}
-	uptodate, allowed := verifC38GitRule(dst, old, nw, oldLocal, ff, force, lease, tracked)
-
-	verifrt.Reach("c38-rules-compared")
-	if uptodate {
-		verifrt.Assert(err == nil && len(cmds) == 0, "c38-rules-uptodate-sends-nothing")
-		return
-	}
-	admitted := err == nil && len(cmds) > 0
-
-	// --- known classes (exact predicates over the inputs) ---
-	leaseElsewhere := lease.present && lease.refName != "" && lease.refName != dst
-	applies := lease.present && !leaseElsewhere
-	byRef := srcName != ""
-	// what the normal rules say without any lease
-	_, plain := verifC38GitRule(dst, old, nw, oldLocal, ff, force, verifC38Lease{}, tracked)
-	// 1. a lease naming another reference switches the fast-forward and tag
-	//    rules off for this reference
-	verifrt.Known("C38-lease-on-other-ref-disables-checks", byRef && leaseElsewhere && !plain)
-	// 2. a refspec whose source is an object id ignores the lease
-	verifrt.Known("C38-lease-ignored-for-object-id-source", !byRef && applies && verifrt.And(plain, !allowed))
-	verifrt.Assert(verifrt.Implies(admitted, allowed), "c38-rules-admitted-only-if-allowed")
-
-	verifrt.Assert(err != nil || len(cmds) <= 1, "c38-rules-one-command")
-	if err == nil && len(cmds) == 1 {
-		c := cmds[0]
-		verifrt.Assert(c.Name == dst && c.Old == old && c.New == nw, "c38-rules-command-is-the-requested-update")
-	}
-	if verifrt.Param("COMPLETE") == 1 {
-		verifrt.Assert(verifrt.Implies(allowed, admitted), "c38-rules-allowed-is-admitted")
-	}
-}
-
-// verifC38LocalRefs: what sendPack passes as localRefs (reference.References).
-func verifC38LocalRefs(st *verifC38Store) []*plumbing.Reference {
-	var out []*plumbing.Reference
-	iter, _ := st.IterReferences()
-	_ = iter.ForEach(func(r *plumbing.Reference) error {
-		out = append(out, r)
-		return nil
-	})
-	return out
-}
